@@ -93,7 +93,7 @@ def run(rep, tier):
         probes = {}
     finally:
         os.unlink(rf)
-    n_hist = 40 if tier == "quick" else 300
+    n_hist = 40 if tier == "quick" else 1500
     try:
         fam = run_replayer(["fsmodel", os.path.join(BUILD, "fsmodel-%d" % os.getpid()), str(seed() + 1), str(n_hist), "80"], timeout=3000)
     except Inconclusive as e:
